@@ -4,6 +4,8 @@
   `Gen.runPred`), and the Parallel rules.  Returns divergences as (kind, detail).
 -/
 import CffVerif.Gen.Flow
+import CffVerif.Gen.FlowRun
+import CffVerif.Gen.ParBody
 
 namespace Gen.Check
 
@@ -280,6 +282,21 @@ def checkFlow (p : Prog) (sc : Scenario) (defaultConc : Nat) (o : Obs) : List Di
            predKind := if t.fb then "TaskPanicRecovered" else "TaskPanic", predClass := pcls,
            predExact := o.ret.isEmpty || o.ret == [pcls] } : EvTask)
       checkEvents p.emitters p.instrDir "Flow" o.ret (!o.ret.isEmpty) tasks o
+  -- The closing events of every installed emitter are the model's epilogue `Gen.flowEnd`
+  -- (Gen/FlowRun.lean — the definition the C07/C18 epilogue theorems are about): exactly, sweep
+  -- included, when the flow returned nil (no job is still running then); at directive level always.
+  let closing :=
+    if p.emitters == 0 || before then [] else
+      (List.range p.emitters).flatMap fun n =>
+        let got : List DEv := ((o.ev.filter (·.1 == n)).map (·.2)).filterMap fun e =>
+          if e.k == -1 || e.kind == "TaskSkipped" then some (e.kind, e.k, e.cls) else none
+        if o.ret.isEmpty && fails.isEmpty && !cancelActive then
+          let want := (flowEnd p [] id.store).events
+          if got != want then [("events", s!"emitter {n}: closing events {got} want {want}")] else []
+        else
+          let want := (flowEnd p o.ret id.store).events.filter DEv.isDirective
+          if got.filter DEv.isDirective != want then
+            [("events", s!"emitter {n}: directive events {got.filter DEv.isDirective} want {want}")] else []
   -- dependencies end before dependents start
   let stampOf := fun (kind : String) (k : Nat) => o.stamps.find? fun s => s.1 == kind && s.2.1.head? == some k
   let provTasks := fun (tys : List Ty) => tys.filterMap fun ty => (p.tasks.find? (·.outs.contains ty)).map (·.k)
@@ -301,7 +318,7 @@ def checkFlow (p : Prog) (sc : Scenario) (defaultConc : Nat) (o : Obs) : List Di
          | some ds => if !(ds.2.2.2 < s.2.2.1) then [("order", s!"predicate {t.k} started before its dependency {d} ended")] else []
          | none => []
      | none => [])
-  stray ++ subset ++ cancelDeps ++ main ++ events ++ order ++ checkCommon p sc defaultConc o
+  stray ++ subset ++ cancelDeps ++ main ++ events ++ closing ++ order ++ checkCommon p sc defaultConc o
 
 
 /-! ### Parallel -/
@@ -313,47 +330,19 @@ def checkPar (p : Prog) (sc : Scenario) (defaultConc : Nat) (o : Obs) : List Div
   | some c => [("crash", c)]
   | none =>
   if !o.hasRet then [("crash", "no observation")] else
-  -- (call line, ret entry if the function fails)
-  let taskLines := p.ptasks.map fun t =>
-    (s!"call {t.k}", match sc.fnOut t.k with
-      | .err => some s!"err:{t.k}"
-      | .panic => some s!"panic:{t.k}:{sc.vclass 'q' t.k 0}"
-      | .ok => none)
-  let sliceInfo := p.slices.map fun s =>
-    let fails := sc.sl.filter (·.1 == s.id)
-    let elems := (List.range (collLen s)).map fun i =>
-      let line := s!"scall {s.id} {if s.idx then toString i else "-"} {sliceElem s.id i}"
-      (line, match (fails.find? (·.2.1 == i)).map (·.2.2) with
-        | some .err => some s!"serr:{s.id}:{i}"
-        | some .panic => some s!"spanic:{s.id}:{i}:{sc.vclass 's' s.id i}"
-        | _ => none)
-    let endLine := s!"secall {s.id}"
-    let endFail := match (sc.slend.lookup s.id).getD .ok with
-      | .err => some s!"seerr:{s.id}"
-      | .panic => some s!"sepanic:{s.id}:{sc.vclass 'S' s.id 0}"
-      | .ok => none
-    (s, elems, endLine, endFail, !fails.isEmpty)
-  let mapInfo := p.maps.map fun m =>
-    let fails := sc.mp.filter (·.1 == m.id)
-    let elems := (List.range (collLen m)).map fun j =>
-      let line := s!"mcall {m.id} {mapKey m.id j} {mapVal m.id j}"
-      (line, match (fails.find? (·.2.1 == j)).map (·.2.2) with
-        | some .err => some s!"merr:{m.id}:{j}"
-        | some .panic => some s!"mpanic:{m.id}:{j}:{sc.vclass 'm' m.id j}"
-        | _ => none)
-    let endLine := s!"mecall {m.id}"
-    let endFail := match (sc.mpend.lookup m.id).getD .ok with
-      | .err => some s!"meerr:{m.id}"
-      | .panic => some s!"mepanic:{m.id}:{sc.vclass 'M' m.id 0}"
-      | .ok => none
-    (m, elems, endLine, endFail, !fails.isEmpty)
-  let colls := sliceInfo ++ mapInfo
+  -- The expected calls and error entries come from the model of the generated Parallel code:
+  -- the job list `parJobs` (Gen/Parallel.lean) and the body semantics `runPJob` (Gen/ParBody.lean),
+  -- the definitions the C04/C08/C10 theorems are about.
+  let jobs := parJobs p
+  let res := jobs.map fun j => runPJob .std p sc j.body
+  let okAt := fun (d : Nat) => ((res.getD d default).ret).isNone
+  let zipped := jobs.zip res
   -- ideal: every function whose dependencies succeed runs
   let ideal : List (String × Option String) :=
-    taskLines ++ colls.flatMap fun (c, elems, endLine, endFail, anyFail) =>
-      elems ++ (if c.hasEnd && !anyFail then [(endLine, endFail)] else [])
-  let never : List String := colls.filterMap fun (c, _, endLine, _, anyFail) => if c.hasEnd && anyFail then some endLine else none
-  let endDeps : List (String × List String) := colls.map fun (_, elems, endLine, _, _) => (endLine, elems.map (·.1))
+    zipped.filterMap fun (j, r) => if j.deps.all okAt then some (r.call, r.ret) else none
+  let never : List String := zipped.filterMap fun (j, r) => if j.deps.all okAt then none else some r.call
+  let endDeps : List (String × List String) :=
+    zipped.filterMap fun (j, r) => if j.deps.isEmpty then none else some (r.call, j.deps.map fun d => (res.getD d default).call)
   let C := sortS (ideal.filterMap (·.2))
   let obsLines := o.calls.map fun c => " ".intercalate (c.1 :: c.2)
   let before := sc.cancel == "before"
